@@ -54,6 +54,8 @@
 (*        is dropped                                                       *)
 (*   DevReportForMate : a SAGA job state is reported for some pilot of the *)
 (*        same bulk (late binding callback)                                *)
+(*   DevTerminateAlways : close(terminate=False) still broadcasts the      *)
+(*        forwarded `terminate` command: every agent stops (cause cancel)  *)
 (***************************************************************************)
 EXTENDS PilotKillOps, TLC
 
@@ -62,17 +64,19 @@ CONSTANTS Pilots,         \* the pilots of the manager
           MaxReq,         \* bound on requests
           MaxCtl,         \* bound on control messages in flight
           DevFinalFilterFirst, DevNoPmgrCheck, DevStopAtUnknown,
-          DevNoRecheckAtLaunch, DevLaunchOutsideLock, DevRegisterAfterSubmit, DevReportForMate
+          DevNoRecheckAtLaunch, DevLaunchOutsideLock, DevRegisterAfterSubmit, DevReportForMate,
+          DevTerminateAlways
 
 VARIABLES kind, lv, cs, pre, ctl, closed, nreq, last,
           wk,             \* the bulk work() is busy with
           wph,            \* "idle" | "staging" | "submit" (lock held)
           mates,          \* per pilot: the bulk it was submitted in
           jdone,          \* pilots whose batch job reported a final state
-          named, ext, jobc, annc, due, rep, wrong
+          named, ext, jobc, annc, due, rep, wrong,
+          told            \* ghost: pilots a message forwarded to the agents told to end
 
 vars == <<kind, lv, cs, pre, ctl, closed, nreq, last, wk, wph, mates, jdone,
-          named, ext, jobc, annc, due, rep, wrong>>
+          named, ext, jobc, annc, due, rep, wrong, told>>
 wvars == <<wk, wph, mates>>
 
 Uids == Pilots \cup {Ghost}
@@ -83,7 +87,7 @@ Init ==
   /\ kind \in [Pilots -> {"saga", "psij"}]
   /\ lv = [p \in Pilots |-> "none"] /\ cs = [p \in Pilots |-> "PEND"]
   /\ pre = {} /\ ctl = <<>> /\ closed = FALSE /\ nreq = 0 /\ last = "init"
-  /\ named = {} /\ ext = {} /\ due = {} /\ rep = {} /\ wrong = FALSE
+  /\ named = {} /\ ext = {} /\ due = {} /\ rep = {} /\ wrong = FALSE /\ told = {}
   /\ wk = {} /\ wph = "idle" /\ mates = [p \in Pilots |-> {}] /\ jdone = {}
   /\ jobc = [p \in Pilots |-> FALSE] /\ annc = [p \in Pilots |-> FALSE]
 
@@ -105,12 +109,12 @@ WorkBegin(S) ==
      /\ wk'   = S \ drop
      /\ wph'  = IF S \ drop = {} THEN "idle" ELSE "staging"
   /\ last' = "work_begin"
-  /\ UNCHANGED <<kind, pre, ctl, closed, nreq, mates, jdone, named, ext, jobc, due, rep, wrong>>
+  /\ UNCHANGED <<kind, pre, ctl, closed, nreq, mates, jdone, named, ext, jobc, due, rep, wrong, told>>
 
 \* staging is done, the lock is taken, the jobs are being submitted
 LaunchBegin ==
   /\ wph = "staging" /\ wph' = "submit" /\ last' = "launch_begin"
-  /\ UNCHANGED <<kind, lv, cs, pre, ctl, closed, nreq, wk, mates, jdone, named, ext, jobc, annc, due, rep, wrong>>
+  /\ UNCHANGED <<kind, lv, cs, pre, ctl, closed, nreq, wk, mates, jdone, named, ext, jobc, annc, due, rep, wrong, told>>
 
 \* the jobs are submitted, the pilots registered; those a kill had the launcher remember
 \* meanwhile (while the bulk was prepared and staged - or, without the lock, submitted) are
@@ -125,13 +129,13 @@ LaunchEnd ==
      /\ cs'   = [p \in Pilots |-> IF p \in sag THEN Seen(p, "CANCELED") ELSE cs[p]]
   /\ mates' = [p \in Pilots |-> IF p \in wk THEN wk ELSE mates[p]]
   /\ wk' = {} /\ wph' = "idle" /\ last' = "launch_end"
-  /\ UNCHANGED <<kind, pre, ctl, closed, nreq, jdone, named, ext, due, rep, wrong>>
+  /\ UNCHANGED <<kind, pre, ctl, closed, nreq, jdone, named, ext, due, rep, wrong, told>>
 
 \* the agent reports in
 Active(p) ==
   /\ lv[p] = "live" /\ cs[p] = "LAUNCH" /\ ~closed /\ p \notin jdone
   /\ cs' = [cs EXCEPT ![p] = "ACTIVE"] /\ last' = "active"
-  /\ UNCHANGED <<kind, lv, pre, ctl, closed, nreq, wvars, jdone, named, ext, jobc, annc, due, rep, wrong>>
+  /\ UNCHANGED <<kind, lv, pre, ctl, closed, nreq, wvars, jdone, named, ext, jobc, annc, due, rep, wrong, told>>
 
 \* the batch layer reports the end of a job - at any time from inside the submission on.
 \* CANCELED without a cancel request of the launcher is the environment's doing.
@@ -149,7 +153,7 @@ JobEnds(p, s, q) ==
      /\ cs'    = IF lost THEN cs ELSE [cs EXCEPT ![q] = Seen(q, s)]
      /\ annc'  = IF lost THEN annc ELSE [annc EXCEPT ![q] = annc[q] \/ s = "CANCELED"]
   /\ last' = "job_ends"
-  /\ UNCHANGED <<kind, pre, ctl, closed, nreq, wvars, named, jobc, due>>
+  /\ UNCHANGED <<kind, pre, ctl, closed, nreq, wvars, named, jobc, due, told>>
 
 (* ---- requests ---------------------------------------------------------------- *)
 CanReq(n) == ~closed /\ nreq < MaxReq /\ Len(ctl) + n <= MaxCtl
@@ -161,13 +165,14 @@ ReqKill(U) ==
   /\ LET V == IF U = {} THEN Pilots ELSE U IN
      /\ named' = named \cup (V \cap Pilots)
      /\ ctl'   = IF Ghost \in V THEN ctl ELSE Append(ctl, Msg("kill", TRUE, V))
-  /\ UNCHANGED <<kind, lv, cs, pre, closed, ext, jobc, annc, due, wvars, jdone, rep, wrong>>
+  /\ UNCHANGED <<kind, lv, cs, pre, closed, ext, jobc, annc, due, wvars, jdone, rep, wrong, told>>
 
 \* PilotManager.cancel_pilots(uids): a message for the agents; the launcher has no part
 ReqCancel(U) ==
   /\ CanReq(1) /\ nreq' = nreq + 1 /\ last' = "req_cancel"
   /\ LET V == IF U = {} THEN Pilots ELSE U IN
      /\ named' = named \cup (V \cap Pilots)
+     /\ told'  = told \cup (V \cap Pilots)            \* forwarded to the agents
      /\ ctl'   = Append(ctl, Msg("cancel", TRUE, V))
   /\ UNCHANGED <<kind, lv, cs, pre, closed, ext, jobc, annc, due, wvars, jdone, rep, wrong>>
 
@@ -176,14 +181,24 @@ ReqRaw(U, own) ==
   /\ CanReq(1) /\ nreq' = nreq + 1 /\ last' = "req_raw"
   /\ named' = IF own THEN named \cup (IF U = {} THEN Pilots ELSE U \cap Pilots) ELSE named
   /\ ctl'   = Append(ctl, Msg("kill", own, U))
-  /\ UNCHANGED <<kind, lv, cs, pre, closed, ext, jobc, annc, due, wvars, jdone, rep, wrong>>
+  /\ UNCHANGED <<kind, lv, cs, pre, closed, ext, jobc, annc, due, wvars, jdone, rep, wrong, told>>
 
-\* PilotManager.close(): cancel all, kill all, stop listening
+\* Session.close() / PilotManager.close() with terminate (the default): the session tells all
+\* components - through the proxy also the agents - to terminate, the manager cancels all
+\* pilots (message for the agents), kills all (message for the launcher), stops listening
 Close ==
   /\ CanReq(2) /\ nreq' = nreq + 1 /\ last' = "close"
-  /\ named' = Pilots /\ closed' = TRUE
+  /\ named' = Pilots /\ closed' = TRUE /\ told' = Pilots
   /\ ctl' = ctl \o <<Msg("cancel", TRUE, Pilots), Msg("kill", TRUE, Pilots)>>
   /\ UNCHANGED <<kind, lv, cs, pre, ext, jobc, annc, due, wvars, jdone, rep, wrong>>
+
+\* close(terminate=False): the managers stop listening, the pilots are left alone - nothing is
+\* sent which an agent or the launcher would take for a request to end a pilot
+CloseKeep ==
+  /\ CanReq(0) /\ nreq' = nreq + 1 /\ last' = "close_keep"
+  /\ closed' = TRUE
+  /\ told' = IF DevTerminateAlways THEN Pilots ELSE told
+  /\ UNCHANGED <<kind, lv, cs, pre, ctl, named, ext, jobc, annc, due, wvars, jdone, rep, wrong>>
 
 (* ---- the launcher gets a control message --------------------------------------- *)
 \* (not while work() holds the lock for the submission: the control thread waits)
@@ -208,13 +223,13 @@ Deliver ==
      \* the delivered kill means them and they are not final: they are due to be canceled
      /\ due' = due \cup {p \in mean : OwesJobCancel(lv[p]) \/ OwesRemember(lv[p])}
   /\ last' = "deliver"
-  /\ UNCHANGED <<kind, closed, nreq, named, ext, wvars, jdone, rep, wrong>>
+  /\ UNCHANGED <<kind, closed, nreq, named, ext, wvars, jdone, rep, wrong, told>>
 
 Next == \/ \E S \in SUBSET Pilots : WorkBegin(S)
         \/ LaunchBegin \/ LaunchEnd
         \/ \E p \in Pilots : Active(p) \/ \E s \in Final, q \in Pilots : JobEnds(p, s, q)
         \/ \E U \in SUBSET Uids : ReqKill(U) \/ ReqCancel(U) \/ ReqRaw(U, TRUE) \/ ReqRaw(U, FALSE)
-        \/ Close \/ Deliver
+        \/ Close \/ CloseKeep \/ Deliver
 Spec == Init /\ [][Next]_vars
 
 (* ---- properties ------------------------------------------------------------------ *)
@@ -228,6 +243,7 @@ TypeOK == /\ \A p \in Pilots : lv[p] \in LViews /\ cs[p] \in CViews
 InvKilledNotNamed ==
   \A p \in Pilots : /\ jobc[p] => p \in named
                     /\ p \in pre => p \in named
+                    /\ p \in told => p \in named
                     /\ annc[p] => p \in named \cup ext
                     /\ cs[p] = "CANCELED" => p \in named \cup ext
 \* C14.NamedNotKilled, an EVENTUAL obligation judged where nothing is in flight (no bulk being
